@@ -113,6 +113,11 @@ func (h *histRun) edit(i int, op *opSpec) error {
 	default:
 		h.codeEdited = true
 	}
+	if strings.Contains(op.Path, "gdir_") && (strings.HasPrefix(op.Op, "dir-") || op.Op == "subdir-rename") {
+		// glob() is evaluated while the BUILD file loads: a project loaded before files were
+		// added to or removed from a globbed directory has to be reloaded, as watch mode does
+		h.codeEdited = true
+	}
 	why := fmt.Sprintf("op %d: %s %s%s%s", i, op.Op, op.Item, op.Path, op.Label)
 	if h.p.applySpecEdit(op) || h.p.applySpecEdit2(op) {
 		var err error
